@@ -32,9 +32,9 @@ static int datasets(int tier) { return vh_is_tsan() ? (tier ? 3 : 1) : (tier ? 2
 /* thread start-up dominates the cost (~0.3 ms under the sanitizers).  "full" data sets repeat every call and let
    KMeansppCenters / MDC select every object for every pair; the others repeat one metric per pair and select
    every object only up to 12 rows (6 selections beyond); the tsan build never repeats. */
-static int full_sets(int tier) { return vh_is_tsan() ? 0 : (tier ? 2 : 0); }
+static int full_sets(int tier) { return vh_is_tsan() ? 0 : (tier ? 1 : 0); }
 static int g_full, g_rot;
-static long nvalue(int tier) { return vh_is_tsan() ? (tier ? 400 : 60) : (tier ? 40000 : 1500); }
+static long nvalue(int tier) { return vh_is_tsan() ? (tier ? 400 : 60) : (tier ? 20000 : 1500); }
 static long ncases(int tier) { return (long)NPAIR * datasets(tier) + NIDX + nvalue(tier); }
 
 static const char *MNAME[4] = { "EUCLIDEAN", "SQUARE_EUCLIDEAN", "MANHATTAN", "COSINE" };
